@@ -21,7 +21,7 @@ def _frame_array(nframes, v0, v1):
     fa.append(LogPass.FrameChannel('DEPT', 'Depth', '.1IN', (1,), np.float64))
     fa.append(LogPass.FrameChannel('GR', 'Gamma', 'gAPI', (1,), np.float32))
     fa.append(LogPass.FrameChannel('CNT', 'Count', '', (1,), np.int32))
-    fa.append(LogPass.FrameChannel('WAVE', 'Waveform', 'OHM.M', (2,), np.float64))
+    fa.append(LogPass.FrameChannel('WAVE', 'Waveform', 'OHM.M', (1, 2), np.float64))      # two values per frame, leading dimension 1
     fa.append(LogPass.FrameChannel('SPEC', 'Spectrum counts', 'cps', (4,), np.int16 if v0 % 2 == 0 else np.uint8))
     fa.init_arrays(nframes)
     for f in range(nframes):
@@ -30,8 +30,8 @@ def _frame_array(nframes, v0, v1):
         fa.channels[0][f] = 1000.0 - 0.5 * f
         fa.channels[1][f] = VALS[(v0 + f) % len(VALS)]
         fa.channels[2][f] = [7, -3, 123456789][(v1 + f) % 3]
-        fa.channels[3].array[f, 0] = VALS[(v1 + f) % len(VALS)]
-        fa.channels[3].array[f, 1] = VALS[(v0 + 2 * f + 1) % len(VALS)]
+        fa.channels[3].array[f, 0, 0] = VALS[(v1 + f) % len(VALS)]
+        fa.channels[3].array[f, 0, 1] = VALS[(v0 + 2 * f + 1) % len(VALS)]
     return fa
 
 
